@@ -432,6 +432,112 @@ void h_roundtrip(void)
 }
 #endif
 
+#ifdef T_BUILD
+/* The remaining encoders asn_build_string / asn_build_objid / asn_build_null / asn_build_exception (there is no asn_build_sequence
+ * in this tree; SEQUENCE headers are written with asn_build_header, covered by target roundtrip), real bodies, harness mode.
+ * Bounds: the output buffer is an object of EXACTLY *datalength bytes, so a write outside [data, data + *datalength) is a
+ * pointer-check failure in the real body.  Exact size: NULL exactly when the encoding (2 header octets + contents, all lengths
+ * here are < 128) does not fit, otherwise the result is data + size and *datalength has decreased by exactly size.
+ * Round trip (second buffer with the 6 bytes of slack the parsers need): parse(build(x)) == x for strings and for object
+ * identifiers with a valid first arc pair and sub-identifiers the parser accepts. */
+#include <stdlib.h>
+#ifndef BCAP
+#define BCAP 24
+#endif
+#ifndef SLEN
+#define SLEN 12
+#endif
+#ifndef ONUM
+#define ONUM 4
+#endif
+#ifndef BUILD_MASK
+#define BUILD_MASK 0x3F
+#endif
+#define EN(n) ((BUILD_MASK >> (n)) & 1)
+static int sp_subid_octets(u_int s) { return s < 0x80u ? 1 : s < 0x4000u ? 2 : s < 0x200000u ? 3 : s < 0x10000000u ? 4 : 5; }
+void h_build(void)
+{
+    int dl; unsigned char which; u_char type;
+    /* BUILD_MASK (bit n = branch n) selects at compile time which encoders a target covers: all six in one SAT problem are too big */
+    __CPROVER_assume(which < 6 && ((BUILD_MASK >> which) & 1));
+    if ((BUILD_MASK & 0xF) && which < 4) {
+        __CPROVER_assume(0 <= dl && dl <= BCAP);
+        int dl0 = dl;
+        u_char *buf = malloc((size_t)dl);
+        __CPROVER_assume(buf != NULL);
+        u_char *e; long need;
+        if (EN(0) && which == 0) {
+            u_char src[SLEN]; int sl;
+            __CPROVER_assume(0 <= sl && sl <= SLEN);
+            e = asn_build_string(buf, &dl, type, src, sl);
+            need = 2 + sl;
+        } else if (EN(1) && which == 1) {
+            oid in[ONUM]; int n;
+            __CPROVER_assume(0 <= n && n <= ONUM);
+            e = asn_build_objid(buf, &dl, type, in, n);
+            need = 2 + 1;
+            for (int i = 2; i < ONUM; i++) if (i < n) need += sp_subid_octets(in[i]);
+        } else if (EN(2) && which == 2) {
+            e = asn_build_null(buf, &dl, type);
+            need = 2;
+        } else {
+            e = asn_build_exception(buf, &dl, type);
+            need = 2;
+        }
+#ifdef TWIN_BUILD
+        __CPROVER_assert((e != NULL) == ((long)dl0 > need), "ensures: TWIN (must fail) an encoding that fills the buffer exactly is refused");
+#else
+        __CPROVER_assert((e != NULL) == ((long)dl0 >= need), "ensures: NULL exactly when the encoding does not fit in *datalength bytes");
+#endif
+        __CPROVER_assert(e == NULL || (e == buf + need && dl == dl0 - (int)need && buf[0] == type && buf[1] == (u_char)(need - 2)),
+                         "ensures: on success the result is data + size, *datalength decreased by exactly size, header = type, short-form length");
+        __CPROVER_assert(0 <= dl && dl <= dl0, "ensures: *datalength never negative, never grows (also on failure)");
+#ifdef REACH
+#if BUILD_MASK & 1
+        __CPROVER_assert(!(which == 0 && e != NULL && dl == 0), "reach: string fills the buffer exactly");
+        __CPROVER_assert(!(which == 0 && e == NULL && dl0 >= 2), "reach: string header fits, contents do not");
+#endif
+#if BUILD_MASK & 2
+        __CPROVER_assert(!(which == 1 && e != NULL && need == 2 + 1 + 5 + 5), "reach: object identifier with two five-octet sub-identifiers");
+        __CPROVER_assert(!(which == 1 && e == NULL), "reach: object identifier does not fit");
+#endif
+#if BUILD_MASK & 4
+        __CPROVER_assert(!(which == 2 && e == NULL && dl0 == 1), "reach: NULL refused with one byte left");
+#endif
+#endif
+        free(buf);
+    } else if (EN(4) && which == 4) {    /* asn_build_string -> asn_parse_string */
+        u_char rb[2 + SLEN + 6], src[SLEN], out[SLEN], t2; int sl, cap = SLEN;
+        __CPROVER_assume(0 <= sl && sl <= SLEN);
+        dl = 2 + SLEN;
+        u_char *e = asn_build_string(rb, &dl, type, src, sl);
+        __CPROVER_assert(e == rb + 2 + sl, "round trip: string built");
+        int pdl = (int)(e - rb);
+        u_char *r = asn_parse_string(rb, &pdl, &t2, out, &cap);
+        __CPROVER_assert(r == e && pdl == 0 && cap == sl && t2 == type, "round trip: parse_string(build_string(s)) consumes exactly the encoding, same length and type");
+        __CPROVER_assert(g >= (size_t)sl || out[g] == src[g], "round trip: parse_string(build_string(s)) == s, every byte (ghost index g)");
+#if defined(REACH) && (BUILD_MASK & 0x10)
+        __CPROVER_assert(!(sl == SLEN && g == SLEN - 1), "reach: longest string, last byte");
+#endif
+    } else if (EN(5) && which == 5) {                    /* asn_build_objid -> asn_parse_objid */
+        u_char rb[2 + 1 + 5 * ONUM + 6], t2; oid in[ONUM], out[ONUM]; int n, cap = ONUM;
+        __CPROVER_assume(2 <= n && n <= ONUM);
+        __CPROVER_assume(in[0] <= 2 && in[1] < 40 && !(in[0] == 1 && in[1] == 3));   /* valid first arcs; 1.3 is the parser's special case, below */
+        for (int i = 2; i < ONUM; i++) __CPROVER_assume(in[i] <= (u_int)MAX_SUBID);
+        dl = 2 + 1 + 5 * ONUM;
+        u_char *e = asn_build_objid(rb, &dl, type, in, n);
+        __CPROVER_assert(e != NULL, "round trip: object identifier built");
+        int pdl = (int)(e - rb);
+        u_char *r = asn_parse_objid(rb, &pdl, &t2, out, &cap);
+        __CPROVER_assert(r == e && pdl == 0 && cap == n && t2 == type, "round trip: parse_objid(build_objid(o)) consumes exactly the encoding, same count and type");
+        __CPROVER_assert(g >= (size_t)n || out[g] == in[g], "round trip: parse_objid(build_objid(o)) == o, every sub-identifier (ghost index g)");
+#if defined(REACH) && (BUILD_MASK & 0x20)
+        __CPROVER_assert(!(n == ONUM && in[ONUM - 1] == (u_int)MAX_SUBID), "reach: largest sub-identifier in the last position");
+#endif
+    }
+}
+#endif
+
 #ifdef T_PDU_DECODE
 void h_pdu_decode(void)
 {
